@@ -13,20 +13,31 @@ use tree_sitter_graph::{Identifier, Variables};
 const KEYS: &[&str] = &["a", "b", "c", "name", "k-1", "_x", "\u{e9}"];
 
 pub fn attrs_sexp(a: &Attributes) -> Sexp {
-    let mut items: Vec<(String, Sexp)> = a.iter().map(|(k, v)| (k.as_str().to_string(), value_sexp(v, &no_syn))).collect();
+    attrs_sexp_syn(a, &no_syn)
+}
+
+pub fn attrs_sexp_syn(a: &Attributes, syn: &dyn Fn(&tree_sitter_graph::graph::SyntaxNodeRef) -> usize) -> Sexp {
+    let mut items: Vec<(String, Sexp)> = a.iter().map(|(k, v)| (k.as_str().to_string(), value_sexp(v, syn))).collect();
     items.sort_by(|x, y| x.0.cmp(&y.0));
     sexp::list(items.into_iter().map(|(k, v)| sexp::list(vec![sexp::st(&k), v])).collect())
 }
 
 pub fn graph_sexp_nosyn(g: &Graph) -> Sexp {
+    graph_sexp_syn(g, &no_syn)
+}
+
+pub fn graph_sexp_syn(g: &Graph, syn: &dyn Fn(&tree_sitter_graph::graph::SyntaxNodeRef) -> usize) -> Sexp {
     let mut nodes = vec![sexp::atom("graph")];
     for n in g.iter_nodes() {
         let node = &g[n];
-        let edges: Vec<Sexp> = node.iter_edges().map(|(sink, e)| sexp::list(vec![sexp::nat(sink.index()), attrs_sexp(&e.attributes)])).collect();
-        nodes.push(sexp::list(vec![attrs_sexp(&node.attributes), sexp::list(edges)]));
+        let edges: Vec<Sexp> = node.iter_edges().map(|(sink, e)| sexp::list(vec![sexp::nat(sink.index()), attrs_sexp_syn(&e.attributes, syn)])).collect();
+        nodes.push(sexp::list(vec![attrs_sexp_syn(&node.attributes, syn), sexp::list(edges)]));
     }
     sexp::list(nodes)
 }
+
+/// source whose tree has different nodes of the same kind starting at the same position (`a + b + c`, `x.y.z`)
+const SYN_SRC: &str = "q = a + b + c\nw = x.y.z\n";
 
 #[derive(Clone, Debug)]
 enum GOp {
@@ -35,6 +46,9 @@ enum GOp {
     GetEdge(usize, usize),
     EdgeAttrAdd(usize, usize, String, Value),
     NodeAttrAdd(usize, String, Value),
+    /// attribute whose value is (a reference to) the syntax node with this pre-order index of `SYN_SRC`'s tree
+    NodeAttrAddSyn(usize, String, usize),
+    EdgeAttrAddSyn(usize, usize, String, usize),
     NodeAttrGet(usize, String),
     NodeAttrs(usize),
     IterNodes,
@@ -51,6 +65,8 @@ fn gop_sexp(op: &GOp) -> Sexp {
         GetEdge(s, t) => sexp::tagged("get-edge", vec![sexp::nat(*s), sexp::nat(*t)]),
         EdgeAttrAdd(s, t, k, v) => sexp::tagged("edge-attr-add", vec![sexp::nat(*s), sexp::nat(*t), sexp::st(k), value_sexp(v, &no_syn)]),
         NodeAttrAdd(n, k, v) => sexp::tagged("node-attr-add", vec![sexp::nat(*n), sexp::st(k), value_sexp(v, &no_syn)]),
+        NodeAttrAddSyn(n, k, ix) => sexp::tagged("node-attr-add", vec![sexp::nat(*n), sexp::st(k), sexp::tagged("syn", vec![sexp::nat(*ix)])]),
+        EdgeAttrAddSyn(s, t, k, ix) => sexp::tagged("edge-attr-add", vec![sexp::nat(*s), sexp::nat(*t), sexp::st(k), sexp::tagged("syn", vec![sexp::nat(*ix)])]),
         NodeAttrGet(n, k) => sexp::tagged("node-attr-get", vec![sexp::nat(*n), sexp::st(k)]),
         NodeAttrs(n) => sexp::tagged("node-attrs", vec![sexp::nat(*n)]),
         IterNodes => sexp::tagged("iter-nodes", vec![]),
@@ -88,7 +104,20 @@ fn gen_gops(r: &mut Rng, len: usize) -> Vec<GOp> {
             }
             6 | 7 => ops.push(GOp::GetEdge(node, sink)),
             8 | 9 | 10 => ops.push(GOp::EdgeAttrAdd(node, sink, key, val)),
-            11 | 12 | 13 => ops.push(GOp::NodeAttrAdd(node, key, val)),
+            11 | 12 | 13 => {
+                // one attribute value in six is a syntax node; the pool is small so that equal and different nodes (of the
+                // same kind, at the same position) meet on one attribute name
+                if r.chance(1, 6) {
+                    // mostly nodes that share kind and start position with another node, on few (node, key) pairs
+                    let dups = syn_dups();
+                    let ix = if !dups.is_empty() && r.chance(4, 5) { *r.pick(&dups) } else { r.below(syn_count()) };
+                    let key = r.pick(&KEYS[..2]).to_string();
+                    let node = r.below(n.min(2));
+                    if r.chance(2, 3) { ops.push(GOp::NodeAttrAddSyn(node, key, ix)) } else { ops.push(GOp::EdgeAttrAddSyn(node, sink, key, ix)) }
+                } else {
+                    ops.push(GOp::NodeAttrAdd(node, key, val))
+                }
+            }
             14 => ops.push(GOp::NodeAttrGet(node, key)),
             15 => ops.push(GOp::NodeAttrs(node)),
             16 => ops.push(GOp::IterNodes),
@@ -100,7 +129,23 @@ fn gen_gops(r: &mut Rng, len: usize) -> Vec<GOp> {
     ops
 }
 
+/// pre-order indices of the nodes of `SYN_SRC` that share kind and start position with another node
+fn syn_dups() -> Vec<usize> {
+    let tree = crate::tree::parse_python(SYN_SRC);
+    let info = crate::tree::TreeInfo::new(&tree);
+    let key = |n: &tree_sitter::Node| (n.kind_id(), n.start_byte());
+    (0..info.nodes.len()).filter(|i| info.nodes.iter().enumerate().any(|(j, m)| j != *i && key(m) == key(&info.nodes[*i]))).collect()
+}
+
+fn syn_count() -> usize {
+    let tree = crate::tree::parse_python(SYN_SRC);
+    crate::tree::TreeInfo::new(&tree).nodes.len()
+}
+
 fn run_gops(ops: &[GOp]) -> (Vec<Sexp>, Sexp, usize) {
+    let tree = crate::tree::parse_python(SYN_SRC);
+    let info = crate::tree::TreeInfo::new(&tree);
+    // pre-order index of a syntax node reference: by kind-independent position in `info.nodes` (looked up through its id)
     let mut g = Graph::new();
     let mut refs = Vec::new();
     let mut obs = Vec::new();
@@ -125,7 +170,7 @@ fn run_gops(ops: &[GOp]) -> (Vec<Sexp>, Sexp, usize) {
             },
             GetEdge(s, k) => match g[refs[*s]].get_edge(gref(*k)) {
                 None => t("none"),
-                Some(e) => sexp::tagged("some", vec![attrs_sexp(&e.attributes)]),
+                Some(e) => sexp::tagged("some", vec![attrs_sexp_syn(&e.attributes, &|s| info.index_of(&g[*s]))]),
             },
             EdgeAttrAdd(s, k, key, v) => match g[refs[*s]].get_edge_mut(gref(*k)) {
                 None => t("no-edge"),
@@ -138,14 +183,31 @@ fn run_gops(ops: &[GOp]) -> (Vec<Sexp>, Sexp, usize) {
                 Ok(()) => t("ok"),
                 Err(_) => t("conflict"),
             },
+            NodeAttrAddSyn(n, key, ix) => {
+                let sref = g.add_syntax_node(info.nodes[*ix]);
+                match g[refs[*n]].attributes.add(Identifier::from(key.as_str()), Value::from(sref)) {
+                    Ok(()) => t("ok"),
+                    Err(_) => t("conflict"),
+                }
+            }
+            EdgeAttrAddSyn(s, k, key, ix) => {
+                let sref = g.add_syntax_node(info.nodes[*ix]);
+                match g[refs[*s]].get_edge_mut(gref(*k)) {
+                    None => t("no-edge"),
+                    Some(e) => match e.attributes.add(Identifier::from(key.as_str()), Value::from(sref)) {
+                        Ok(()) => t("ok"),
+                        Err(_) => t("conflict"),
+                    },
+                }
+            }
             NodeAttrGet(n, key) => match g[refs[*n]].attributes.get(key.as_str()) {
                 None => t("none"),
-                Some(v) => sexp::tagged("some", vec![value_sexp(v, &no_syn)]),
+                Some(v) => sexp::tagged("some", vec![value_sexp(v, &|s| info.index_of(&g[*s]))]),
             },
-            NodeAttrs(n) => attrs_sexp(&g[refs[*n]].attributes),
+            NodeAttrs(n) => attrs_sexp_syn(&g[refs[*n]].attributes, &|s| info.index_of(&g[*s])),
             IterNodes => sexp::list(g.iter_nodes().map(|r| sexp::nat(r.index())).collect()),
             IterEdges(n) => sexp::list(
-                g[refs[*n]].iter_edges().map(|(sink, e)| sexp::list(vec![sexp::nat(sink.index()), attrs_sexp(&e.attributes)])).collect(),
+                g[refs[*n]].iter_edges().map(|(sink, e)| sexp::list(vec![sexp::nat(sink.index()), attrs_sexp_syn(&e.attributes, &|s| info.index_of(&g[*s]))])).collect(),
             ),
             NodeCount => sexp::nat(g.node_count()),
             EdgeCount(n) => sexp::nat(g[refs[*n]].edge_count()),
@@ -155,7 +217,8 @@ fn run_gops(ops: &[GOp]) -> (Vec<Sexp>, Sexp, usize) {
     for n in g.iter_nodes() {
         max_edges = max_edges.max(g[n].edge_count());
     }
-    (obs, graph_sexp_nosyn(&g), max_edges)
+    let final_graph = graph_sexp_syn(&g, &|s| info.index_of(&g[*s]));
+    (obs, final_graph, max_edges)
 }
 
 #[derive(Clone, Debug)]
